@@ -268,4 +268,10 @@ pub fn run(ctx: &mut Ctx) {
         }
     });
     ctx.require(&r, &["exact_product"]);
+    // hidden state through failing calls and shared memos: model-free pairwise history independence over the scaling operations
+    let scal = |op: crate::optable::Op| { use crate::optable::Op::*; matches!(op, TMul | TDiv | YMul | YDiv | IMul | IDiv) };
+    let hist_calls = crate::histpairs::calls_ops(true, &scal);
+    crate::histpairs::pairwise(ctx, "C14", "scaling", hist_calls);
+    let hist_calls_full = crate::histpairs::calls_ops(false, &scal);
+    crate::histpairs::pairwise_same_thread(ctx, "C14", "scaling", hist_calls_full);
 }
